@@ -8,6 +8,7 @@ import (
 
 	"github.com/idena-network/idena-go/blockchain/fee"
 	"github.com/idena-network/idena-go/blockchain/types"
+	"github.com/idena-network/idena-go/blockchain/validation"
 	"github.com/idena-network/idena-go/verifutil"
 )
 
@@ -77,6 +78,7 @@ func TestVerifC02(t *testing.T) {
 	for sc := 0; sc < nScen; sc++ {
 		seed := scenSeed(sc)
 		w := NewWorld(optsFor(sc, seed))
+		twin := w.AddTwin()
 		if !startScenario(w, rep, true) {
 			w.Cleanup()
 			continue
@@ -90,6 +92,41 @@ func TestVerifC02(t *testing.T) {
 				for _, g := range w.Burst(s.R) {
 					if err := s.SubmitGen(g); err == nil {
 						rep.Count("burst_txs_admitted", 1)
+					}
+				}
+			}
+			// gas cap boundary: cumulative gas exactly on the cap with one more tx following, built
+			// by a proposer whose pool holds exactly these three txs
+			if i%40 == 25 && twin.CanPropose() {
+				if gens := w.ExactCapTxs(s.R, twin); gens != nil {
+					ok := true
+					for _, g := range gens {
+						if err := twin.TxPool.AddExternalTxs(validation.InboundTx, g.Tx); err != nil {
+							ok = false
+						}
+					}
+					if ok {
+						s.MoveClock()
+						res := w.NextBlockBy(twin)
+						rep.Eval(1)
+						gas := 0
+						for _, tx := range res.Block.Body.Transactions {
+							gas += fee.CalculateGas(tx)
+						}
+						rep.Count("exact_cap_proposals", 1)
+						vmg := 0
+						rep.Count(fmt.Sprintf("exact_cap_ntx:%d:txgas:%d", len(res.Block.Body.Transactions), gas+vmg), 1)
+						if len(res.Block.Body.Transactions) == 3 {
+							rep.Count("exact_cap_proposals_with_tail_tx", 1)
+						}
+						if len(res.Errs) > 0 {
+							reportReject(rep, sc, i, res)
+							break
+						}
+						CheckAgreement(w, rep, "C02", res.Block)
+					}
+					for _, old := range twin.TxPool.VerifAll() {
+						twin.TxPool.Remove(old)
 					}
 				}
 			}
